@@ -71,9 +71,16 @@ package charset
 // xml_src / xml_err: ghost record of the document handed to the XML decoder and of the error
 // RawToken returned (set by its assumed contract). A document with an XML declaration must
 // reach the label extraction whatever encoding it declares.
+// xmlInst(doc): the text of the declaration as encoding/xml hands it over (ProcInst.Inst; assumed
+// contract of RawToken); xmlEnc(inst): the value of the encoding pseudo-attribute as
+// xmlEncoding extracts it; lowerOf: strings.ToLower. The declared label is reported lower-cased
+// and otherwise untouched, whatever it is.
+//@ func charset.xmlEncoding
+//@   defines sameSlice(result, xmlEnc(s))
 //@ func charset.fromXML
 //@   ghost entry: xml_err = 0
 //@   ensures [C12_xml_decl_read] xmlHasDecl(xml_src) ==> xml_err == 0
+//@   ensures [C12_xml_label] xmlHasDecl(xml_src) ==> sameSlice(result, lowerOf(xmlEnc(xmlInst(xml_src))))
 
 // a byte-order mark takes precedence over a meta declaration
 //@ func charset.FromHTML
